@@ -151,4 +151,135 @@ PACK = Stream('interppack_pack', 'h_interppack', 'interppack', gen_pack, oracle=
 GRIDPACK = Stream('interppack_gridpack', 'h_interppack', None, gen_grid, oracle=oracle, kind='oracle', session='pack',
                   nontrivial=nontrivial, timeout=900)
 
-STREAMS = [PACK, GRIDPACK]
+
+
+# ------------------------------------------------------------------ ref_interp_from_part on distributed grids (MPI, oracle)
+FP_BRICKS = [(2, 2, 2), (3, 2, 2), (3, 3, 2), (3, 3, 3), (4, 3, 3), (5, 4, 3)]
+
+
+def part_array(rng, np, l, m, n, prev):
+    N = l * m * n
+    kind = rng.choice(['random', 'random', 'one', 'slab', 'same', 'rotate', 'few'])
+    if kind == 'one':
+        r = rng.randrange(np)
+        return [r] * N
+    if kind == 'slab':
+        per = (N + np - 1) // np
+        off = rng.randrange(np)
+        return [((g // per) + off) % np for g in range(N)]
+    if kind == 'same' and prev is not None:
+        return list(prev)
+    if kind == 'rotate' and prev is not None:
+        return [(p + 1) % np for p in prev]
+    if kind == 'few':
+        base = rng.randrange(np)
+        a = [base] * N
+        for g in rng.sample(range(N), min(N, rng.randint(1, 3))):
+            a[g] = rng.randrange(np)
+        return a
+    return [rng.randrange(np) for _ in range(N)]
+
+
+def gen_frompart(rng, tier, np):
+    ops = []
+    for k in range(10 if tier == 'quick' else 50):
+        l, m, n = rng.choice(FP_BRICKS[:5] if tier == 'quick' else FP_BRICKS)
+        R = rng.randint(1, 3)
+        arrays, prev = [], None
+        for r in range(R + 1):
+            prev = part_array(rng, np, l, m, n, prev)
+            arrays += prev
+        ops.append('frompart %d %d %d %d %d %s' % (np, l, m, n, R, ' '.join(str(p) for p in arrays)))
+    return ops
+
+
+def fp_groups(line):
+    w = line.split()
+    R = int(w[1])
+    i = 2
+    groups = []
+    for _ in range(R + 1):
+        assert w[i] == 'D'
+        c = int(w[i + 1])
+        i += 2
+        recs = {}
+        for _ in range(c):
+            g, p = int(w[i]), int(w[i + 1])
+            d = [int(x) for x in w[i + 2:i + 6]]
+            b = w[i + 6:i + 10]
+            if g in recs:
+                raise ValueError('vertex %d owned twice' % g)
+            recs[g] = (p, d, b)
+            i += 10
+        assert w[i] == 'U'
+        u = int(w[i + 1])
+        un = [int(x) for x in w[i + 2:i + 2 + u]]
+        i += 2 + u
+        groups.append((recs, un))
+    return groups
+
+
+def hexf(s):
+    import struct
+    return struct.unpack('>d', bytes.fromhex(s))[0]
+
+
+def oracle_frompart(ops, impl):
+    """records follow their vertices: after every ref_interp_from_part every vertex is owned once, has a record, the
+    record names - by GLOBAL donor vertex ids, as stored by the rank the record points to - the same donor cell with the
+    same weights as before, and the weights reproduce the vertex position from the donor positions"""
+    bad = []
+    for i, (op, line) in enumerate(zip(ops, impl)):
+        if line.startswith('bad-op'):
+            continue
+        if not line.startswith('ok '):
+            bad.append((i, 'ref_interp_from_part run failed: %s' % line[:80]))
+            continue
+        w = op.split()
+        l, m, n = int(w[2]), int(w[3]), int(w[4])
+        N = l * m * n
+
+        def xyz(g):
+            return ((g % l) / (l - 1.0), ((g // l) % m) / (m - 1.0), (g // (l * m)) / (n - 1.0))
+        try:
+            groups = fp_groups(line)
+        except Exception as e:
+            bad.append((i, 'unparsable harness line: %s' % e))
+            continue
+        ref = None
+        for r, (recs, un) in enumerate(groups):
+            where = 'after caching' if r == 0 else 'after round %d' % r
+            if un or sorted(recs) != list(range(N)):
+                bad.append((i, '%s: vertices without a donor record %s (owned vertices with a record: %d of %d)' % (where, un[:5], len(recs), N)))
+                break
+            msg = None
+            for g in range(N):
+                p, d, b = recs[g]
+                if min(d) < 0:
+                    msg = '%s: vertex %d points to cell of rank %d that is not a valid donor cell there' % (where, g, p)
+                    break
+                bw = [hexf(x) for x in b]
+                x = xyz(g)
+                y = [sum(bw[k] * xyz(d[k])[c] for k in range(4)) for c in range(3)]
+                if abs(sum(bw) - 1.0) > 1e-12 or max(abs(x[c] - y[c]) for c in range(3)) > 1e-12:
+                    msg = ('%s: vertex %d at %s carries donor vertices %s with weights %s, which is position %s: '
+                           'the record belongs to another vertex' % (where, g, x, d, bw, y))
+                    break
+            if msg:
+                bad.append((i, msg))
+                break
+            key = {g: tuple(sorted(zip(recs[g][1], recs[g][2]))) for g in range(N)}
+            if ref is None:
+                ref = key
+            elif key != ref:
+                g = [g for g in range(N) if key[g] != ref[g]][0]
+                bad.append((i, '%s: the record of vertex %d changed from %s to %s' % (where, g, ref[g], key[g])))
+                break
+    return bad
+
+
+FROMPART = Stream('interp_from_part_mpi', 'h_interpfrompart', None, gen_frompart, oracle=oracle_frompart, kind='oracle',
+                  np=[1, 2, 3], session='frompart', nontrivial=lambda op, out: out.startswith('ok '), timeout=900)
+FROMPART.ops_file = True
+
+STREAMS = [PACK, GRIDPACK, FROMPART]
